@@ -2,7 +2,7 @@
 
 from __future__ import annotations
 
-from ..rules import merge, triviality
+from ..rules import expressions, merge, triviality
 from .common import new_run
 
 LEVEL = "other"
@@ -27,4 +27,8 @@ def check(model, tier):
     triviality.r05_2_noop_predicates_agree(ctx)
     merge.r05_3_merged_constructors(ctx)
     merge.r05_4_then(ctx)
+    merge.r05_5_operations_stored_as_given(ctx)
+    merge.r05_6_who_may_elide(ctx)
+    expressions.r13_1_as_trivial(ctx, rule="R05.7")
+    expressions.r12_3_connectives(ctx, rule="R05.8")
     return run
